@@ -39,6 +39,13 @@ pub struct ExSeekFrom(std::io::SeekFrom);
 #[verifier::reject_recursive_types(T)]
 pub struct ExOnce<T>(core::iter::Once<T>);
 
+/// `<File as Seek>::seek` to an absolute offset: on success the cursor stands there (the only use: RollingReader::into_writer).
+/// What remains to be READ from the handle (file_rest) is not specified after a seek.
+pub assume_specification[ <std::fs::File as std::io::Seek>::seek ](f: &mut std::fs::File, pos: std::io::SeekFrom) -> (r: std::io::Result<u64>)
+    ensures
+        r is Ok ==> (match pos { std::io::SeekFrom::Start(n) => crate::vfs::file_pos(&*final(f)) == n, _ => true }),
+;
+
 /// `iter::once(v)`: a well-behaved finite iterator that yields exactly `v`
 pub assume_specification<T>[ core::iter::once::<T> ](value: T) -> (r: core::iter::Once<T>)
     ensures
